@@ -762,7 +762,8 @@ def poisson_pyx(_tree) -> str:
 
 # ---------------------------------------------------------------------------------------------------
 # tables about ALL mask-function classes (not a fixed list) and their callers
-MUTATORS = {"append", "extend", "update", "add", "insert", "pop", "clear", "setdefault", "remove", "popitem", "sort", "reverse"}
+MUTATORS = {"append", "extend", "update", "add", "insert", "pop", "clear", "setdefault", "remove", "popitem", "sort", "reverse",
+            "move_to_end", "appendleft", "popleft", "discard", "fill", "put", "resize", "__setitem__", "__delitem__"}
 
 
 def _maskfunc_classes(tree):
